@@ -447,6 +447,10 @@ fn selftest(report: &mut Report) -> bool {
 /// THE OPERATION RETURNS.  (The harness's `block_on_catch` keeps the runtime alive until spawned
 /// tasks have finished, which hides what this probe is about.)
 fn delete_like_cli(arch: &Path, bands: &[u32], workers: Option<usize>, linger_us: u64) -> String {
+    delete_like_cli_faulted(arch, bands, workers, linger_us, vec![])
+}
+
+fn delete_like_cli_faulted(arch: &Path, bands: &[u32], workers: Option<usize>, linger_us: u64, faults: Vec<crate::icept::FaultSpec>) -> String {
     use conserve::monitor::test::TestMonitor;
     use conserve::transport::Transport;
     use conserve::{Archive, BandId, DeleteOptions};
@@ -456,7 +460,8 @@ fn delete_like_cli(arch: &Path, bands: &[u32], workers: Option<usize>, linger_us
     };
     let ids: Vec<BandId> = bands.iter().map(|b| BandId::from(*b)).collect();
     let r = rt.block_on(async {
-        let archive = Archive::open(Transport::local(arch)).await?;
+        let transport = if faults.is_empty() { Transport::local(arch) } else { transport_for(arch, &crate::icept::Icept::new(IceptConfig { faults: faults.clone(), ..Default::default() })) };
+        let archive = Archive::open(transport).await?;
         archive.delete_bands(&ids, &DeleteOptions { dry_run: false, break_lock: false }, TestMonitor::arc()).await
     });
     // `linger_us` > 0 stands in for scheduling jitter between the operation returning and the
@@ -526,6 +531,63 @@ fn gc_lock_probe(thorough: bool, report: &mut Report) {
     }
 }
 
+/// The same question for a gc that fails because ONE READ-CLASS OPERATION fails (a listing, a read, a stat):
+/// for every such operation of the fault-free gc, under a current-thread and a multi-thread runtime dropped as
+/// soon as the call returns — is `GC_LOCK` gone afterwards, and what does the next backup say?  The answers must
+/// not depend on the runtime.
+fn gc_fault_probe(thorough: bool, report: &mut Report) {
+    let work = tempfile::tempdir().unwrap();
+    let src = work.path().join("src");
+    let base = work.path().join("base");
+    let mut tree = Tree::default();
+    tree.nodes.insert("/".into(), Node { comps: vec![], kind: NodeKind::Dir, mode: 0o755, mtime_ns: 1_600_000_000_000_000_000, uid: 0, gid: 0 });
+    tree.nodes.insert("/f".into(), Node { comps: vec!["f".into()], kind: NodeKind::File(b"hello".to_vec()), mode: 0o644, mtime_ns: 1_600_000_000_000_000_000, uid: 0, gid: 0 });
+    tree.materialize(&src);
+    create_archive(&base);
+    let params = BackupParams::default();
+    if !real_backup(&base, &src, &params, IceptConfig::default()).result.starts_with("result ok") {
+        return;
+    }
+    // fault-free gc trace (on a copy)
+    let probe = work.path().join("ff");
+    copy_dir(&base, &probe);
+    let ff = real_delete(&probe, &[], false, false, IceptConfig::default());
+    let _ = fs::remove_dir_all(&probe);
+    let mut ops: Vec<(String, String, usize)> = vec![];
+    for i in 0..ff.trace.len() {
+        if let Some((verb, path, nth)) = crate::sweep::op_id_of(&ff.trace, i) {
+            if verb == "read" || verb == "list" || verb == "stat" {
+                ops.push((verb, path, nth));
+            }
+        }
+    }
+    let reps = if thorough { 6 } else { 2 };
+    for (verb, path, nth) in ops {
+        let mut outcomes: BTreeMap<String, Vec<String>> = BTreeMap::new();
+        // the last variant leaves the runtime alive for 5 ms after the call returned (scheduling jitter):
+        // enough for a detached clean-up task to run, if the code relies on one
+        for (label, workers, linger_us) in [("current-thread", None, 0u64), ("multi-thread-4", Some(4usize), 0), ("multi-thread-4+5ms-before-shutdown", Some(4), 5000)] {
+            for i in 0..reps {
+                let arch = work.path().join(format!("fp-{label}-{i}"));
+                copy_dir(&base, &arch);
+                let f = crate::sweep::fault_spec(&verb, &path, nth, "ot");
+                let del = delete_like_cli_faulted(&arch, &[], workers, linger_us, vec![f]);
+                let left = arch.join("GC_LOCK").exists();
+                let next = real_backup(&arch, &src, &params, IceptConfig::default());
+                let outcome = format!("gc: {} | GC_LOCK {} | next backup: {}", del.split(' ').take(3).collect::<Vec<_>>().join(" "), if left { "left behind" } else { "removed" }, next.result.split(' ').take(3).collect::<Vec<_>>().join(" "));
+                outcomes.entry(outcome).or_default().push(format!("{label}#{i}"));
+                let _ = fs::remove_dir_all(&arch);
+            }
+        }
+        if std::env::var("VERIF_DEBUG").is_ok() { eprintln!("PROBE {verb} {path} {nth}: {:?}", outcomes); }
+        report.case(&format!("gc-fault-probe {verb} {path} {nth}"), true);
+        report.hit("gc-fault-probe:op");
+        if outcomes.len() > 1 {
+            report.oracle_fail("determinism:gc-lock-after-faulted-gc", json!({"history": ["backup -> b0000", format!("gc with the {nth}-th `{verb} {path}` failing"), "backup"], "runtimes": "current-thread and multi-thread(4), dropped when the call returns"}), "after a gc in which one read-class operation fails, what is left in the archive (GC_LOCK) and what the next backup does depends on the runtime", json!(outcomes));
+        }
+    }
+}
+
 // ---------------------------------------------------------------------------------------------
 
 fn cond_json(c: &Cond) -> Value {
@@ -545,6 +607,7 @@ pub fn run(tier: &str, seed: u64, report: &mut Report) {
         report.notes.push("comparator self-test failed; results below are not to be trusted".into());
     }
     gc_lock_probe(thorough, report);
+    gc_fault_probe(thorough, report);
     let tmpfs = tmpfs_base();
     match &tmpfs {
         Some(p) => report.notes.push(format!("re-ordered sources are created on {} (tmpfs lists newest first), the plain one in the default temp directory", p.display())),
